@@ -234,6 +234,10 @@ def run(cx):
     # the 22 s retry budget is measured on the endpoint's clock
     from props.shared import clock_exact
     clock_exact(cx, "C09.s")
+    # a Reliable packet's channel parent is named by the lead in the datagram header: a lead that the chosen header
+    # width cannot hold goes out as 0, the dependent packet is delivered first and the parent is dropped as surpassed
+    from bits import check_headers
+    check_headers(cx, "C09.t", "C09.u")
     # a resend entry must name the frame its datagram actually left in: a fragment closed into the previous frame
     # but logged under the next one is never resent when that frame is lost, and the flush never completes
     from props.shared import resend_ref_in_own_frame
